@@ -90,6 +90,110 @@ example : IsPerm [2, 0, 1] Ex.f0.colNames.length ∧ Ex.f0.colNames.Nodup ∧
   unfold IsPerm
   decide +kernel
 
+/-- "Statistics ... produced by the pipeline's own stages are accepted by the
+next stage and identify clusters and genes consistently by name" — the file
+written by the model's own first stage (`writeStats` =
+`precompute_summary_stats_from_h5ad_list_and_tree`), for every chunk size
+`rows ≥ 1` and worker count `nProc ≥ 1`.  Hypotheses: the leaf level's dict has
+distinct keys, the cell lists of the leaves are pairwise disjoint (what
+`validate_taxonomy_tree` guarantees, hypothesis of `C09.name_table_lookup`),
+every cell has one value per gene name.  When the stage succeeds:
+ * the file is accepted by the reader (`FileOK`), `col_names` are the gene
+   names handed in, the stored taxonomy is the taxonomy, the arrays are
+   rectangular;
+ * for every leaf `ℓ` the row the mapper reads (`cluster_to_row[ℓ]`) is the
+   row the stage wrote for `ℓ` — `buf[rank of ℓ among the sorted leaf names]` —
+   whose `n_cells` is the number of cells, over all files, that the taxonomy
+   lists for `ℓ` (`membersOf`), and the mean read at gene position `j` is
+   `Σ v_j / max(1, n)` over exactly those cells (`memberMean`);
+ * read by NAME: `meanByName f ℓ g` is that mean for the column `g` has in the
+   gene list. -/
+theorem names_consistent_written (t : RawTree) (genes : List Gene)
+    (files : List (Nat × List CellRec)) (rows nProc : Nat) (f : StatsFile) (ll : Level)
+    (hrows : 1 ≤ rows) (hproc : 1 ≤ nProc) (hll : t.leafLevel = some ll)
+    (hkeys : (t.nodesAt ll).Nodup)
+    (hdisj : (t.level ll).Pairwise (fun a b => ∀ c ∈ a.2, c ∉ b.2))
+    (hg : ∀ fl ∈ files, ∀ cell ∈ fl.2, cell.vals.length = genes.length)
+    (h : writeStats t genes files rows nProc = .ok f) :
+    FileOK f ∧ f.colNames = genes ∧ f.tree = t ∧
+    (∀ row ∈ f.data, row.genes.length = f.colNames.length) ∧
+    ∀ leaf ∈ leavesOf t,
+      (∃ r row, indexIn (uniqueSorted (t.nodesAt ll)) leaf = some r ∧
+        f.clusterToRow.lookup leaf = some r ∧ f.data[r]? = some row ∧
+        row.n = (membersOf t ll files leaf).length ∧
+        leafMeanRow f leaf = .ok (row.genes.map (fun s => meanOf row.n s.sum))) ∧
+      (∃ row, leafMeanRow f leaf = .ok row ∧ row.length = genes.length ∧
+        ∀ j, j < genes.length → row[j]? = some (memberMean t ll files leaf j)) ∧
+      (∀ (g : Gene) (j : Nat), nameToIdx genes g = some j →
+        meanByName f leaf g = some (memberMean t ll files leaf j)) := by
+  obtain ⟨h1, h2, h3, _, _, hmain⟩ :=
+    writeStats_spec t genes files rows nProc f ll hrows hproc hll hkeys hdisj hg h
+  refine ⟨h1, h2, h3,
+    writeStats_widths t genes files rows nProc f ll hrows hproc hll hkeys hdisj hg h, ?_⟩
+  intro leaf hl
+  obtain ⟨r, row, e1, e2, e3, e4, e5, e6, e7⟩ := hmain leaf hl
+  exact ⟨⟨r, row, e1, e2, e3, e5, e6⟩, ⟨_, e6, by simpa using e4, e7⟩,
+    fun g j hj => writeStats_meanByName t genes files rows nProc f ll hrows hproc hll hkeys hdisj
+      hg h leaf hl g j hj⟩
+
+/- the instance: `Ex.f0` IS the file written for `Ex.tr`, `Ex.files` (chunks of 2 rows, 2
+workers); leaf 31 has the cells 101, 102 (both in file 1), values 2, 4 for gene 7 -/
+example : Ex.tr.leafLevel = some 1 ∧ (Ex.tr.nodesAt 1).Nodup ∧
+    (Ex.tr.level 1).Pairwise (fun a b => ∀ c ∈ a.2, c ∉ b.2) ∧
+    (∀ fl ∈ Ex.files, ∀ cell ∈ fl.2, cell.vals.length = Ex.genes.length) ∧
+    (writeStats Ex.tr Ex.genes Ex.files 2 2).toOption.map
+        (fun f => (f.clusterToRow, f.colNames, f.data, f.tree))
+      = some (Ex.f0.clusterToRow, Ex.f0.colNames, Ex.f0.data, Ex.f0.tree) ∧
+    (membersOf Ex.tr 1 Ex.files 31).map (·.name) = [101, 102] ∧
+    memberMean Ex.tr 1 Ex.files 31 0 = 3 ∧ meanByName Ex.f0 31 7 = some 3 := by
+  decide +kernel
+
+/-- the side condition "the stage succeeds" of `names_consistent_written` is
+about the data only: when no file holds a cell the taxonomy names, the first
+stage fails (`final_output` stays `None`, cf. `C09.direct_needs_wanted`)
+instead of handing an all-zero file to the next stage. -/
+theorem names_consistent_written_needs_cells (t : RawTree) (genes : List Gene)
+    (files : List (Nat × List CellRec)) (rows nProc : Nat) (ll : Level) (hproc : 1 ≤ nProc)
+    (hll : t.leafLevel = some ll)
+    (hno : ∀ fl ∈ files, ∀ cell ∈ fl.2, ∀ q ∈ t.level ll, cell.name ∉ q.2) :
+    writeStats t genes files rows nProc = .error (.stats .noBuffers) :=
+  writeStats_no_cells t genes files rows nProc ll hproc hll hno
+
+example : (writeStats Ex.tr Ex.genes [(0, [⟨199, [9, 9, 9]⟩])] 2 2).toOption.isNone = true ∧
+    ∀ fl ∈ [(0, [(⟨199, [9, 9, 9]⟩ : CellRec)])], ∀ cell ∈ fl.2, ∀ q ∈ Ex.tr.level 1,
+      cell.name ∉ q.2 := by
+  decide +kernel
+
+/-- "... for every row order ... and every gene order": the file of
+`names_consistent_written`, with its rows then moved by any permutation `σ`
+(and `cluster_to_row` rewritten) and its gene columns by any permutation `π`,
+still gives, for every leaf NAME and gene NAME, the mean over the leaf's cells
+of that gene.  Extra hypothesis: the gene names are distinct. -/
+theorem names_consistent_written_any_order (σ π : List Nat) (t : RawTree) (genes : List Gene)
+    (files : List (Nat × List CellRec)) (rows nProc : Nat) (f : StatsFile) (ll : Level)
+    (hrows : 1 ≤ rows) (hproc : 1 ≤ nProc) (hll : t.leafLevel = some ll)
+    (hkeys : (t.nodesAt ll).Nodup)
+    (hdisj : (t.level ll).Pairwise (fun a b => ∀ c ∈ a.2, c ∉ b.2))
+    (hg : ∀ fl ∈ files, ∀ cell ∈ fl.2, cell.vals.length = genes.length)
+    (h : writeStats t genes files rows nProc = .ok f) (hn : genes.Nodup)
+    (hσ : IsPerm σ f.data.length) (hπ : IsPerm π genes.length) :
+    FileOK (permuteGenes π (permuteRows σ f)) ∧
+    ∀ leaf ∈ leavesOf t, ∀ (g : Gene) (j : Nat), nameToIdx genes g = some j →
+      meanByName (permuteGenes π (permuteRows σ f)) leaf g
+        = some (memberMean t ll files leaf j) := by
+  obtain ⟨h1, h2, _, h4, h5⟩ :=
+    names_consistent_written t genes files rows nProc f ll hrows hproc hll hkeys hdisj hg h
+  have hπ' : IsPerm π f.colNames.length := by rw [h2]; exact hπ
+  refine ⟨fileOK_permute σ π f hσ hπ' h1, fun leaf hl g j hj => ?_⟩
+  rw [meanByName_permute σ π f hσ hπ' (by rw [h2]; exact hn) h4 leaf g]
+  exact (h5 leaf hl).2.2 g j hj
+
+example : IsPerm [1, 2, 0] Ex.f0.data.length ∧ IsPerm [2, 0, 1] Ex.genes.length ∧ Ex.genes.Nodup ∧
+    meanByName (permuteGenes [2, 0, 1] (permuteRows [1, 2, 0] Ex.f0)) 31 7 = some 3 ∧
+    nameToIdx Ex.genes 7 = some 0 ∧ memberMean Ex.tr 1 Ex.files 31 0 = 3 := by
+  unfold IsPerm
+  decide +kernel
+
 /-- "Statistics ... and selected markers produced by the pipeline's own stages
 are accepted by the next stage and identify clusters and genes consistently by
 name" — the composition, as the mapper sees it at one node
